@@ -82,7 +82,23 @@ impl<'a> Gen<'a> {
                     }
                 }
             };
-            match self.w.below(8) {
+            match self.w.below(9) {
+                8 => {
+                    // a CLP(Z) constraint on the shared variables (operands: variables or integers)
+                    let z = |g: &mut Self| -> T {
+                        if g.w.chance(2, 3) {
+                            T::V(*g.w.pick(&g.vars))
+                        } else {
+                            T::I(g.w.range(0, 2))
+                        }
+                    };
+                    let (a, b, c) = (z(self), z(self), z(self));
+                    if self.w.chance(1, 2) {
+                        G::Plusz(a, b, c)
+                    } else {
+                        G::Timesz(a, b, c)
+                    }
+                }
                 0 | 1 => {
                     let a = leaf(self);
                     let b = if self.w.chance(1, 3) { T::list(vec![leaf(self), leaf(self)]) } else { leaf(self) };
